@@ -5,5 +5,6 @@ CONSTANTS
  CheckMode = "pubshare"
  MCCfgs <- Cfg3v2one
  MaxForge = 1
+ Combine = FALSE
 INVARIANTS Reach_NoLock
 CHECK_DEADLOCK FALSE
